@@ -1,6 +1,6 @@
 """C12 — point-format conversion preserves shared dimensions or fails loudly.
 Model: Model/Convert.v (zeroed target record + copy by dimension name through the checked setters, tables of Gen/GenDims.v;
-version rule of Model/HeaderOps.v; extra dimensions, VLR/EVLR lists). Correspondence: laspy.convert on real LasData objects vs
+version rule of Model/HeaderOps.v; extra dimensions, VLR/EVLR lists; resolution of every listed name against the result's format). Correspondence: laspy.convert on real LasData objects vs
 the extracted `convert`, all 121 format pairs x explicit/implicit versions x contents; dimension-name lists and
 lost_dimensions for every format / pair. Search: the property stated on the implementation (no model involved).
 
@@ -8,7 +8,17 @@ Round 5: (1) NAMES - the extra dimensions are no longer assumed to carry fresh n
 target, of the source, of other formats, legacy aliases (OLD_LASPY_NAMES), scaled coordinates, case variants, in the case stream
 (model + oracle) and in a sweep of every such name x all 121 pairs; (2) SIZE - conversions of records just over 2^16 and 2^20
 (thorough: 2^21 + k) points, every value non-zero and position dependent, compared field by field; (3) STATE - every call is
-made twice, the caller editing what the first call returned (result object, lists, sets, arrays) in between."""
+made twice, the caller editing what the first call returned (result object, lists, sets, arrays) in between.
+
+Round 6: (4) USE - the result is not only compared field by field through its raw array: every dimension of the result is read through
+every public route (las[name], las.name, las.points[name], las.points.name; x / y / z; scaled extra dimensions as presented values),
+the point format of the result is asked by every holder (dimension_by_name / [name] for every listed name, names, sizes, dtype, extra
+dimension descriptors) and every dimension is ASSIGNED through six routes, the same assignment being made on a twin of the source
+(same presented values, same stored bytes afterwards); this in the case stream, the name sweep and the large records;
+(5) VLR KINDS - sources carrying every record laspy knows by class (waveform packet descriptors 100..355, classification lookup,
+GeoTIFF keys / doubles / ascii, WKT, laszip, text area, superseded, copc) as raw VLRs, as parsed known classes (vlr_factory) or re-read
+from a file, as VLRs or EVLRs, adjacent or around the extra-bytes record, for all 121 pairs; the result's lists are also asked by
+class and by id."""
 import copy
 import hashlib
 import io
@@ -30,6 +40,11 @@ ASSUMPTIONS = [
     "/repo resolves a name shared by an extra dimension and a sub-field / legacy alias / scaled coordinate to the standard one",
     "numpy assignment between arrays of the same dtype copies the bytes (floating point fields are compared by bit pattern)",
     "the source is a LasData whose header version and point format are compatible and whose header format is the record's format",
+    "name resolution (Model/Convert.v `resolve`, LAS specification + laspy's documented aliases): on a format-f record a name means, in this "
+    "order, a legacy alias, a scaled coordinate x / y / z, a standard dimension of f, else the extra dimension of that name; the use oracle "
+    "compares an extra dimension through the public routes only when its name means the extra dimension on both sides",
+    "a scaled extra dimension is presented as stored * scale + offset computed in float64 (LAS specification 1.4 R15, extra bytes), and takes "
+    "round((v - offset) / scale); the exact stored value after an assignment is only required for integer types of at most 32 bits",
     "EVLR objects of a >= 1.4 result are the source's objects (the list is new): object-level edits of an EVLR are outside the claim",
 ]
 
@@ -48,7 +63,15 @@ RULE = ("every (source, target) pair of the 11 formats x target version {implici
         "variant (non-zero values, types wider / narrower than the standard field); every conversion is made twice, the first result "
         "being edited in between; plus: every clash name x every (source, target) pair with a small record (sweep), records of "
         "2^16 + k and 2^20 + k points (thorough 2^21 + k, exact multiples) with position-dependent non-zero values, and the table "
-        "functions (lost_dimensions, PointFormat, supported_*) called twice with the first answer edited by the caller. "
+        "functions (lost_dimensions, PointFormat, supported_*) called twice with the first answer edited by the caller; one case per "
+        "(source, target) pair (and one ordinary case in five) whose source carries 1..11 records laspy knows by class - waveform packet "
+        "descriptors (1..3, ids 100..355), classification lookup, GeoTIFF keys / doubles / ascii, WKT math transform / coordinate system, "
+        "text area, superseded, laszip, copc - as raw VLR objects, as the parsed classes (vlr_factory) or re-read from a written file, "
+        "as VLRs (any position around the extra-bytes record) or EVLRs; every successful result is USED: each dimension read through "
+        "las[name] / las.name / las.points[name] / las.points.name (scaled extra dimensions as presented values, x y z), the point format "
+        "asked through its three holders (listings, sizes, dtype, dimension_by_name / [name] / [index] of every listed name), each dimension "
+        "assigned through six routes next to the same assignment on a twin of the source, an extra dimension removed, the result converted "
+        "back to the source format, its VLR lists asked by class and by id. "
         "non-trivial = at least one point or extra dimension or VLR; distinct by (pair, versions, mode, record bytes, extra-dimension "
         "layout, VLR lists)")
 
@@ -121,6 +144,26 @@ def enc_las(las):
     return [f"{h.version.major}.{h.version.minor}", str(pf.id), ed, ";".join(pts) or "-", vl, ev]
 
 
+def enc_resolution(las):
+    """every name the point format lists, with what dimension_by_name finds under it: name=S | name=E:<descriptor> | name=!"""
+    pf = las.point_format
+    extra = list(pf.extra_dimensions)
+    descs = descriptors(pf)
+    toks = []
+    for nm in pf.dimension_names:
+        try:
+            d = pf.dimension_by_name(nm)
+        except Exception:
+            toks.append(f"{nm}=!")
+            continue
+        if d.is_standard:
+            toks.append(f"{nm}=S")
+        else:
+            j = [i for i, x in enumerate(extra) if x is d] or [i for i, x in enumerate(extra) if dim_key(x) == dim_key(d)]
+            toks.append(f"{nm}=E:" + (common.hexb(descs[j[0]]) if j else "?"))
+    return "|".join(toks) or "-"
+
+
 def snapshot(las):
     """everything observable of a LasData, by value"""
     h = las.header
@@ -153,7 +196,12 @@ def serialised(las):
 # generators
 # ---------------------------------------------------------------------------------
 PROBLEMS = {}
+USED = {}       # how often each way of using a result was exercised (reported in the input distribution)
 _POOL = None
+
+
+def used(key, k=1):
+    USED[key] = USED.get(key, 0) + k
 
 
 _SUBS, _CANDS = {}, {}
@@ -280,6 +328,64 @@ def fill_clash_values(rng, rec, src, tgt):
         a[...] = np.array([rng.choice(vals) for _ in range(a.size)], dtype=base).reshape(a.shape)
 
 
+# every record laspy gives a class (or a meaning) to; LAS specification: user id, record id, payload layout
+KNOWN_KINDS = ["waveform", "lookup", "geokeys", "geodouble", "geoascii", "wktmath", "wktcs", "text", "superseded", "laszip", "copc"]
+
+
+def known_vlr(rng, kind, used):
+    """a raw laspy.VLR whose (user id, record id, payload) is a well-formed record of the given kind"""
+    import laspy
+    desc = lasio.rand_ascii(rng, rng.choice([0, 5, 31, 32]), list(range(65, 91)))
+    if kind == "waveform":
+        free = [i for i in (100, 101, 355, rng.randrange(100, 356), rng.randrange(100, 356)) if i not in used] or [i for i in range(100, 356) if i not in used]
+        rid = rng.choice(free)
+        used.add(rid)
+        return laspy.VLR("LASF_Spec", rid, desc, struct.pack("<BBIIdd", rng.choice([8, 16, 32]), rng.choice([0, 1]), rng.choice([0, 1, 88, 2 ** 32 - 1]),
+                                                            rng.choice([1, 500, 2 ** 32 - 1]), rng.choice([1.0, 0.5, -2.25]), rng.choice([0.0, 10.5])))
+    if kind == "lookup":
+        ids = rng.sample(range(256), rng.choice([1, 3, 3, 17, 17, 256]))
+        return laspy.VLR("LASF_Spec", 0, desc, b"".join(struct.pack("<B15s", i, lasio.rand_ascii(rng, rng.choice([0, 4, 15]), list(range(97, 123))).encode()) for i in ids))
+    if kind == "geokeys":
+        k = rng.choice([0, 1, 4])
+        return laspy.VLR("LASF_Projection", 34735, desc, struct.pack("<4H", 1, 1, 0, k) + b"".join(
+            struct.pack("<4H", rng.choice([1024, 2048, 3072, 4099]), rng.choice([0, 34736, 34737]), 1, rng.choice([1, 4326, 32633, 65535])) for _ in range(k)))
+    if kind == "geodouble":
+        return laspy.VLR("LASF_Projection", 34736, desc, b"".join(struct.pack("<d", rng.choice([0.0, 1.5, -6378137.0, 298.257223563])) for _ in range(rng.choice([1, 2, 5]))))
+    if kind == "geoascii":
+        return laspy.VLR("LASF_Projection", 34737, desc, b"\0".join(lasio.rand_ascii(rng, rng.choice([1, 9, 40]), list(range(65, 91))).encode() + b"|" for _ in range(rng.choice([1, 2]))) + b"\0")
+    if kind in ("wktmath", "wktcs"):
+        txt = rng.choice(['GEOGCS["WGS 84",DATUM["WGS_1984",SPHEROID["WGS 84",6378137,298.257223563]]]', 'PARAM_MT["Affine",PARAMETER["num_row",3]]', "LOCAL_CS[]", ""])
+        return laspy.VLR("LASF_Projection", 2111 if kind == "wktmath" else 2112, desc, txt.encode() + b"\0")
+    if kind == "text":
+        return laspy.VLR("LASF_Spec", 3, desc, lasio.rand_ascii(rng, rng.choice([0, 1, 120])).encode())
+    if kind == "superseded":
+        return laspy.VLR("LASF_Spec", 7, desc, b"")
+    if kind == "laszip":
+        return laspy.VLR("laszip encoded", 22204, desc, bytes(rng.randrange(256) for _ in range(rng.choice([34, 52]))))
+    return laspy.VLR("copc", rng.choice([1, 1000]), desc, bytes(rng.randrange(256) for _ in range(rng.choice([160, 32]))))
+
+
+def add_known_vlrs(spec, h):
+    """the records of spec['kvlrs'] = [[kind, 'vlr' | 'evlr'], ...]: the 'vlr' ones inserted into h.vlrs (any position: before / after the
+    extra-bytes record, next to each other), the 'evlr' ones returned; spec['kparse'] = 'raw' (plain VLR objects, as a user appends them)
+    | 'factory' (the classes a reader would build). Own random stream: the sources of earlier rounds are unchanged."""
+    rng = random.Random(spec["seed"] ^ 0x6B766C72)
+    used, ev = set(), []
+    for kind, place in spec["kvlrs"]:
+        v = known_vlr(rng, kind, used)
+        if spec.get("kparse") == "factory" and kind != "copc":      # the parsed COPC records cannot be serialised (laspy does not write COPC)
+            try:
+                from laspy.vlrs.known import vlr_factory
+                v = vlr_factory(v)
+            except Exception:
+                PROBLEMS["vlr_factory unusable"] = PROBLEMS.get("vlr_factory unusable", 0) + 1
+        if place == "evlr":
+            ev.append(v)
+        else:
+            h.vlrs.insert(rng.randrange(len(h.vlrs) + 1), v)
+    return ev
+
+
 def build_source(spec):
     """spec (JSON-able dict) -> LasData; every random choice comes from Random(spec['seed'])"""
     import laspy
@@ -292,6 +398,7 @@ def build_source(spec):
         lasio.add_extra_dims(rng, h, spec["nextra"])
     if spec["vlr_after_eb"]:
         h.vlrs.append(lasio.rand_vlr(rng, max_payload=40))
+    kev = add_known_vlrs(spec, h) if spec.get("kvlrs") else []
     n = spec["n"]
     rec = lasio.rand_points(rng, h, n, spec["pattern"])
     if spec.get("clash"):
@@ -318,7 +425,7 @@ def build_source(spec):
         i = rng.randrange(n)
         for c in ("X", "Y", "Z"):
             rec.array[c][i] = rng.choice([-2 ** 31, 2 ** 31 - 1, 0, -1])
-        if "gps_time" in names:
+        if "gps_time" in names and "gps_time" in SPEC_FIELDS.get(spec["src"], ()):      # the standard field, not an extra dimension of that name
             rec.array["gps_time"].view(np.uint64)[i] = rng.choice([0x7FF8000000000001, 0x7FF0000000000001, 0xFFF0000000000000, 1 << 63, 1])
         for d in h.point_format.extra_dimensions:
             a = rec.array[d.name]
@@ -330,6 +437,8 @@ def build_source(spec):
         las.evlrs = VLRList([lasio.rand_vlr(rng, max_payload=30) for _ in range(rng.choice([1, 2]))])
     elif ev == "empty":
         las.evlrs = VLRList()
+    if kev:
+        las.evlrs = VLRList(kev[:1] + list(las.evlrs or []) + kev[1:])
     if spec.get("via_file"):
         try:
             buf = io.BytesIO()
@@ -339,6 +448,18 @@ def build_source(spec):
         except Exception:      # writing / reading is not this property's subject: keep the in-memory object
             PROBLEMS["file round trip of the source failed"] = PROBLEMS.get("file round trip of the source failed", 0) + 1
     return las
+
+
+def known_choice(rng, src, full=False, evlr_ok=True):
+    """[[kind, place], ...]: 1..4 kinds (all of them when full), waveform descriptors (1..3 of them) most of the time when the source
+    format has wave packets and sometimes when it has not; each as VLR or (one in four) as EVLR"""
+    kinds = list(KNOWN_KINDS) if full else rng.sample(KNOWN_KINDS, rng.choice([1, 2, 4]))
+    if "waveform" not in kinds and rng.random() < (0.8 if src in (4, 5, 9, 10) else 0.2):
+        kinds.append("waveform")
+    if "waveform" in kinds:
+        kinds += ["waveform"] * rng.choice([0, 1, 2])
+    rng.shuffle(kinds)
+    return [[k, "evlr" if evlr_ok and rng.random() < 0.25 else "vlr"] for k in kinds]
 
 
 def case_specs(ctx):
@@ -358,6 +479,11 @@ def case_specs(ctx):
                  nvlrs=rng.choice([0, 0, 1, 2, 5]), vlr_after_eb=bool(nextra) and rng.random() < 0.6, evlrs=ev,
                  via_file=rng.random() < 0.15)
         s.update(kw)
+        if "kvlrs" not in s and src in FMTS and rng.random() < 0.2:      # records laspy knows by class, in any ordinary case
+            s["kvlrs"] = known_choice(rng, src)
+            s["kparse"] = rng.choice(["raw", "factory", "factory"])
+        if s.get("via_file") and s.get("kvlrs"):      # a COPC record read from a file is a class laspy cannot serialise: nothing to compare
+            s["kvlrs"] = [kp for kp in s["kvlrs"] if kp[0] != "copc"]
         specs.append(s)
 
     vers = [None] + VERS
@@ -378,6 +504,14 @@ def case_specs(ctx):
         for src in FMTS:
             for tgt in FMTS:
                 add(src, tgt, rng.choice(vers), "fit", clash=True, nextra=rng.choice([1, 1, 2]), n=rng.choice([1, 2, 5]))
+    # VLR kinds: every pair, the source carries records laspy knows by class (raw / parsed / re-read from a file; VLR / EVLR)
+    for _ in range(ctx.n(1, 5)):
+        for src in FMTS:
+            for tgt in FMTS:
+                parse = rng.choice(["raw", "factory", "factory", "file"])
+                sver = rng.choice([v for v in VERS if src in lasio.COMPAT[v]])
+                add(src, tgt, rng.choice(vers), "fit", kvlrs=known_choice(rng, src, full=rng.random() < 0.3, evlr_ok=(parse != "file" or sver == "1.4")),
+                    kparse="raw" if parse == "file" else parse, via_file=parse == "file", sver=sver, n=rng.choice([0, 1, 3]), nextra=rng.choice([0, 0, 1]))
     # one violating value in each narrow field, a single point, nothing else in the way
     for src in range(6, 11):
         for tgt in range(6):
@@ -427,11 +561,284 @@ def first_diff(a, b):
     return int(ne[0]) if len(ne) else None
 
 
-def compare_records(las, r, src, t, tgt=None):
+# ---------------------------------------------------------------------------------
+# round 6: the result is USED - read and assigned through every public route, its point format asked by name
+# ---------------------------------------------------------------------------------
+GET_ROUTES = ["las[name]", "las.name", "las.points[name]", "las.points.name"]
+SET_ROUTES = ["las[name] = v", "las.name = v", "las.points[name] = v", "las.points.name = v", "las[name][:] = v", "las.points[name][i] = v[i]"]
+_STD_T = {}
+
+
+def std_names(fmt):
+    if fmt not in _STD_T:
+        _STD_T[fmt] = tuple(std_dim_names(fmt))
+    return _STD_T[fmt]
+
+
+def route_get(obj, name, k):
+    if k == 0:
+        return obj[name]
+    if k == 1:
+        return getattr(obj, name)
+    if k == 2:
+        return obj.points[name]
+    return getattr(obj.points, name)
+
+
+def route_set(obj, name, k, val):
+    if k == 0:
+        obj[name] = val
+    elif k == 1:
+        setattr(obj, name, val)
+    elif k == 2:
+        obj.points[name] = val
+    elif k == 3:
+        setattr(obj.points, name, val)
+    elif k == 4 or len(val) > 8:
+        obj[name][:] = val
+    else:
+        view = obj.points[name]
+        for i in range(len(val)):
+            view[i] = val[i]
+
+
+def shown(v):
+    """what the user is handed: class of the view, dtype, shape and the values (bytes: floats by bit pattern)"""
+    with np.errstate(all="ignore"):
+        a = np.asarray(v)
+    return (type(v).__name__, a.dtype.str, tuple(a.shape), np.ascontiguousarray(a).tobytes())
+
+
+def shown_diff(a, b):
+    if a[:3] != b[:3]:
+        return f"{b[0]} of {b[1]}{list(b[2])}, the source gives {a[0]} of {a[1]}{list(a[2])}"
+    x, y = np.frombuffer(a[3], dtype=a[1]).reshape(a[2]), np.frombuffer(b[3], dtype=b[1]).reshape(b[2])
+    i = first_diff(x, y)
+    i = 0 if i is None else i
+    return f"point {i} of {len(x)}: {np.atleast_1d(y)[i].tolist()!r}, the source gives {np.atleast_1d(x)[i].tolist()!r}"
+
+
+def ext_resolves(fmt, name):
+    """record[name] of a format-fmt record means the EXTRA dimension of that name (LAS specification + the documented aliases):
+    not a legacy alias, not a scaled coordinate, not a dimension or packed field of the format"""
+    from laspy.point import dims
+    return name not in dims.OLD_LASPY_NAMES and name not in ("x", "y", "z") and name not in std_names(fmt) and name not in SPEC_FIELDS[fmt]
+
+
+def dim_key(d):
+    bits = lambda a: None if a is None else tuple(lasio.f64bits(float(x)) for x in np.asarray(a).reshape(-1))
+    return (d.name, d.kind.name, int(d.num_bits), int(d.num_elements), bool(d.is_standard), d.description, bits(d.scales), bits(d.offsets))
+
+
+def use_format(las, r, src, t):
+    """the point format of the result, asked through each of its holders: names, sizes, dtype, every listed name resolvable"""
+    import laspy
+    bad = []
+    tn = list(std_names(t))
+    sdims = list(las.point_format.extra_dimensions)
+    enames = [d.name for d in sdims]
+    wc = worst_class(las, src, t)
+    ref = laspy.PointFormat(t)
+    for hn, pf in (("las.point_format", r.point_format), ("las.header.point_format", r.header.point_format), ("las.points.point_format", r.points.point_format)):
+        got = list(pf.dimension_names)
+        lists = (got, list(pf.standard_dimension_names), list(pf.extra_dimension_names), [d.name for d in pf.dimensions],
+                 [d.name for d in pf.standard_dimensions], [d.name for d in pf.extra_dimensions])
+        if lists != (tn + enames, tn, enames, tn + enames, tn, enames):
+            bad.append((tag("dimension listing", wc), f"convert {src}->{t}: {hn} lists dimensions {lists[0]}, standard {lists[1]}, extra {lists[2]}; "
+                        f"format {t} has {tn} and the source the extra dimensions {enames}"))
+            continue
+        sizes = (int(pf.size), int(pf.num_standard_bytes), int(pf.num_extra_bytes), int(pf.dtype().itemsize), list(pf.dtype().names), bool(pf.has_waveform_packet))
+        want = (int(ref.size + las.point_format.num_extra_bytes), int(ref.size), int(las.point_format.num_extra_bytes),
+                int(r.points.array.dtype.itemsize), list(r.points.array.dtype.names), t in (4, 5, 9, 10))
+        if sizes != want or pf.dtype() != r.points.array.dtype:
+            bad.append((tag("format sizes", wc), f"convert {src}->{t}: {hn} (size, standard bytes, extra bytes, dtype size, dtype names, wave packets) = {sizes}, expected {want}"))
+        listed = list(pf.dimensions)
+        for i, nm in enumerate(got):
+            try:
+                found = (pf.dimension_by_name(nm), pf[nm], pf[i])
+            except Exception as ex:
+                bad.append((tag("dimension_by_name", name_class(nm, src, t) if nm in enames else "fresh"),
+                            f"convert {src}->{t}: {hn} lists {nm!r} ({'extra' if i >= len(tn) else 'standard'} dimension) but asking for it by name raised "
+                            f"{type(ex).__name__}: {ex}"))
+                break
+            first = [x for x in listed if x.name == nm][0]
+            if dim_key(found[0]) != dim_key(first) or dim_key(found[1]) != dim_key(first) or dim_key(found[2]) != dim_key(listed[i]):
+                bad.append((tag("dimension_by_name", name_class(nm, src, t) if nm in enames else "fresh"),
+                            f"convert {src}->{t}: {hn}.dimension_by_name({nm!r}) = {dim_key(found[0])}, [{nm!r}] = {dim_key(found[1])}, listed: {dim_key(first)}"))
+                break
+        for d, sd in zip(pf.extra_dimensions, sdims):
+            if dim_key(d) != dim_key(sd):
+                bad.append((tag("extra dimension descriptor", name_class(sd.name, src, t)), f"convert {src}->{t}: {hn} describes {dim_key(d)}, the source {dim_key(sd)}"))
+                break
+        if bad:
+            break
+    return bad
+
+
+def use_reads(las, r, src, t, routes=(0, 1, 2, 3)):
+    """every dimension of the result read through the public routes: what the user is handed (view class, dtype, shape, values) is what
+    the source hands for that name; a scaled extra dimension is presented as stored * scale + offset (LAS specification)"""
+    bad = []
+    sn, tn = std_names(src), std_names(t)
+    for nm in ["x", "y", "z"] + [x for x in tn if x in sn]:
+        for k in routes:
+            try:
+                a = shown(route_get(las, nm, k))
+            except Exception:
+                continue
+            try:
+                b = shown(route_get(r, nm, k))
+            except Exception as ex:
+                bad.append((f"dimension {nm} unreadable", f"convert {src}->{t}: {GET_ROUTES[k]} with name = {nm!r} raised {type(ex).__name__}: {str(ex)[:100]}"))
+                break
+            if a[1:] != b[1:]:      # the class of the view belongs to the format (a bit field here, a byte there)
+                bad.append((f"dimension {nm} as presented", f"convert {src}->{t}: {GET_ROUTES[k]} with name = {nm!r}: {shown_diff(a, b)}"))
+                break
+    for d in las.point_format.extra_dimensions:
+        nm = d.name
+        if not (ext_resolves(src, nm) and ext_resolves(t, nm)):
+            continue        # the name means something else on one side: the stored bytes are compared by compare_records
+        what = ("scaled " if d.scales is not None else "") + "extra dimension"
+        cls = name_class(nm, src, t)
+        raw = np.asarray(r.points.array[nm])
+        if d.scales is not None:
+            sc, of = np.asarray(d.scales, dtype=np.float64).reshape(-1), np.asarray(d.offsets, dtype=np.float64).reshape(-1)
+            if d.num_elements == 1:
+                sc, of = sc[0], of[0]
+            with np.errstate(all="ignore"):
+                spec_val = (raw * sc) + of
+            spec_shown = ("ScaledArrayView", spec_val.dtype.str, tuple(spec_val.shape), np.ascontiguousarray(spec_val).tobytes())
+        else:
+            spec_shown = ("ndarray", raw.dtype.str, tuple(raw.shape), np.ascontiguousarray(raw).tobytes())
+        used("use:read " + what, len(routes))
+        for k in routes:
+            try:
+                b = shown(route_get(r, nm, k))
+            except Exception as ex:
+                bad.append((tag(what + " unreadable", cls), f"convert {src}->{t}: {GET_ROUTES[k]} with name = {nm!r} ({d.type_str()}) raised {type(ex).__name__}: {str(ex)[:100]}"))
+                break
+            try:
+                a = shown(route_get(las, nm, k))
+            except Exception:
+                a = b
+            if a != b or b != spec_shown:
+                bad.append((tag(what + " as presented", cls),
+                            f"convert {src}->{t}: {GET_ROUTES[k]} with name = {nm!r} ({d.type_str()}, scales {None if d.scales is None else np.asarray(d.scales).tolist()}, "
+                            f"offsets {None if d.offsets is None else np.asarray(d.offsets).tolist()}): {shown_diff(a if a != b else spec_shown, b)}"
+                            + ("" if a != b else " (= stored * scale + offset)")))
+                break
+    return bad
+
+
+def try_set(obj, nm, k, val):
+    try:
+        with np.errstate(all="ignore"):
+            route_set(obj, nm, k, val)
+        return "ok"
+    except Exception as ex:
+        return common.exc_kind(ex)
+
+
+def use_assign(twin, r, src, t, salt=0):
+    """every dimension of the result is assigned (the values of the source in reverse order: they fit), through a route that rotates
+    with the dimension; the same assignment is made on a twin of the source: same outcome, and afterwards both present the same values
+    and hold the same bytes; a dimension the source lacks takes ones. [(kind, observed)]"""
+    bad = []
+    n = len(twin.points)
+    sn, tn = std_names(src), std_names(t)
+    edims = {d.name: d for d in twin.point_format.extra_dimensions if ext_resolves(src, d.name) and ext_resolves(t, d.name)}
+    names = ["x", "y", "z"] + [x for x in tn if x in sn] + list(edims)
+    for j, nm in enumerate(names):
+        k = (salt + j) % len(SET_ROUTES)
+        try:
+            with np.errstate(all="ignore"):
+                val = np.array(route_get(twin, nm, 0))[::-1].copy()
+            raw_before = np.asarray(twin.points.array[nm]).copy() if nm in edims else None
+        except Exception:
+            continue
+        o1, o2 = try_set(twin, nm, k, val), try_set(r, nm, k, val)
+        d = edims.get(nm)
+        used("use:assign " + SET_ROUTES[k] + (" (refused)" if o1 != "ok" else ""))
+        used("use:assigned " + ("standard dimension" if d is None else "scaled extra dimension" if d.scales is not None else "extra dimension"))
+        what = "dimension" if d is None else ("scaled " if d.scales is not None else "") + "extra dimension"
+        cls = "fresh" if d is None else name_class(nm, src, t)
+        if o1 != o2:
+            bad.append((tag(f"{what} assignment outcome", cls), f"convert {src}->{t}: {SET_ROUTES[k]} with name = {nm!r}, v = {val.reshape(n, -1)[:3].tolist()}...: "
+                        f"{o2} on the result, {o1} on the source"))
+            continue
+        if o2 != "ok":
+            continue
+        try:
+            a, b = shown(route_get(twin, nm, 0)), shown(route_get(r, nm, 0))
+        except Exception as ex:
+            bad.append((tag(f"{what} unreadable", cls), f"convert {src}->{t}: reading {nm!r} after {SET_ROUTES[k]} raised {type(ex).__name__}: {str(ex)[:100]}"))
+            continue
+        stored = None
+        if d is not None:
+            rr = np.asarray(r.points.array[nm])
+            if d.scales is None:
+                stored = val if rr.tobytes() != val.tobytes() else None
+            elif rr.dtype.base.kind in "iu" and rr.dtype.base.itemsize <= 4:
+                stored = raw_before[::-1] if rr.tobytes() != raw_before[::-1].tobytes() else None
+        elif nm not in ("x", "y", "z") and b[3] != np.ascontiguousarray(val).tobytes():
+            stored = val
+        if d is None:
+            a = (b[0],) + a[1:]
+        if a != b or stored is not None:
+            rr = np.asarray(r.points.array[nm]) if d is not None else np.frombuffer(b[3], dtype=b[1]).reshape(b[2])
+            bad.append((tag(f"{what} assignment", cls), f"convert {src}->{t}: after {SET_ROUTES[k]} with name = {nm!r}, v = {val.reshape(n, -1)[:3].tolist()}... "
+                        + (f"the result presents {shown_diff(a, b)} (after the same assignment)" if a != b else
+                           f"the result stores {rr.reshape(n, -1)[:3].tolist()}..., expected {np.asarray(stored).reshape(n, -1)[:3].tolist()}...")))
+    if not bad:
+        bad += [(k + " (after assignments)", w) for k, w in compare_records(twin, r, src, t, routes=(salt % 4,), fmt=False)][:2]
+    # dimensions the source format lacks: they are zero, they take ones, nothing else moves
+    fresh = [x for x in tn if x not in sn]
+    if fresh and not bad:
+        for j, nm in enumerate(fresh):
+            k = (salt + j) % len(SET_ROUTES)
+            try:
+                one = np.ones(n, dtype=np.asarray(route_get(r, nm, 0)).dtype)
+            except Exception as ex:
+                bad.append((f"dimension {nm} unreadable", f"convert {src}->{t}: las[{nm!r}] raised {type(ex).__name__}: {str(ex)[:100]}"))
+                continue
+            o = try_set(r, nm, k, one)
+            got = None if o != "ok" else np.asarray(route_get(r, nm, 0))
+            if o != "ok" or got.tobytes() != one.tobytes():
+                bad.append((f"dimension {nm} assignment", f"convert {src}->{t}: {SET_ROUTES[k]} with name = {nm!r} (a dimension format {src} lacks), v = ones: "
+                            + (o if o != "ok" else f"reads {got[:4].tolist()} afterwards")))
+        if not bad:
+            bad += [(k + " (after assignments)", w) for k, w in compare_records(twin, r, src, t, routes=(), fmt=False) if " not zero" not in k][:2]
+    # structure: an extra dimension removed from the result (and from the twin): the others stay, listed and readable, with the same values
+    if edims and not bad:
+        gone = list(edims)[salt % len(edims)]
+        o1, o2 = "ok", "ok"
+        try:
+            twin.remove_extra_dim(gone)
+        except Exception as ex:
+            o1 = common.exc_kind(ex)
+        try:
+            r.remove_extra_dim(gone)
+        except Exception as ex:
+            o2 = common.exc_kind(ex)
+        used("use:remove_extra_dim")
+        if o1 != o2:
+            bad.append((tag("extra dimension removal outcome", name_class(gone, src, t)), f"convert {src}->{t}: remove_extra_dim({gone!r}) on the result: {o2}, on the source: {o1}"))
+        elif o2 == "ok":
+            bad += [(k + " (after remove_extra_dim)", w) for k, w in compare_records(twin, r, src, t, routes=(salt % 4,)) if " not zero" not in k][:2]
+    return bad
+
+
+def compare_records(las, r, src, t, tgt=None, routes=None, fmt=True):
     """the record part of C12 on a result r of convert(las -> format t): [(kind, observed)] (vectorised: any record size)"""
     bad = []
     if len(r.points) != len(las.points):
         return [("point count", f"{len(r.points)} points, source has {len(las.points)}")]
+    if routes is None:
+        routes = (0, 1, 2, 3) if len(las.points) <= 4096 else (len(las.points) % 4,)
+    try:
+        bad += (use_format(las, r, src, t) if fmt else []) + (use_reads(las, r, src, t, routes) if routes else [])
+    except Exception as ex:
+        bad.append(("result unusable", f"convert {src}->{t}: using the result raised {type(ex).__name__}: {str(ex)[:120]}"))
     sn, tn = std_dim_names(src), std_dim_names(t)
     for nm in ["X", "Y", "Z"] + [x for x in tn if x in sn and x not in ("X", "Y", "Z")]:
         a, b = np.asarray(las.points[nm]), np.asarray(r.points[nm])
@@ -468,6 +875,48 @@ def compare_records(las, r, src, t, tgt=None):
                 bad.append(("extra dimension description", f"{d.name}: {sd.description!r} vs {d.description!r}"))
     if np.shares_memory(r.points.array, las.points.array):
         bad.append(("shared state array", "result and source records share memory"))
+    return bad
+
+
+def compare_vlr_lists(what, src_list, res_list, src_vl, res_vl, ctxt):
+    """all the records of the source, in order, by value (user id, record id, description, payload); then the list of the result asked
+    the way a user looks a record up: by class name, by user id / record id. [(kind, observed)]"""
+    label = lambda v: f"{type(v).__name__} {v.user_id}/{v.record_id}"
+    us, ur = [vlr_flat(v) for v in src_list], [vlr_flat(v) for v in res_list]
+    if us != ur:
+        lost = [v for v, f in zip(src_list, us) if f not in ur]
+        new = [v for v, f in zip(res_list, ur) if f not in us]
+        if lost:
+            return [(f"{what} lost {type(lost[0]).__name__}", f"{ctxt}: {len(ur)} of the {len(us)} records of the source ({[label(v) for v in src_list]}) are in the "
+                     f"result; lost: {[label(v) for v in lost]}")]
+        if new:
+            return [(f"{what} added", f"{ctxt}: the result holds {[label(v) for v in new]}, the source does not")]
+        return [(f"{what} order", f"{ctxt}: {[label(v) for v in res_list]}, source {[label(v) for v in src_list]}")]
+    bad = []
+    for cls in sorted({type(v).__name__ for v in src_list}):
+        try:
+            a, ia = [vlr_flat(v) for v in src_vl.get(cls)], src_vl.index(cls)
+        except Exception:
+            continue        # the source's own list cannot be asked that way
+        try:
+            b, ib = [vlr_flat(v) for v in res_vl.get(cls)], res_vl.index(cls)
+        except Exception as ex:
+            b, ib = type(ex).__name__, -1
+        if a != b or (ia != ib and not any(is_eb(v) for v in src_vl)):
+            bad.append((f"{what} lookup {cls}", f"{ctxt}: .get({cls!r}) gives {b if isinstance(b, str) else len(b)} records (first at {ib}), on the source {len(a)} (first at {ia})"))
+            break
+    for uid, rid in sorted({(v.user_id, v.record_id) for v in src_list}):
+        try:
+            a = [vlr_flat(v) for v in src_vl.get_by_id(uid, (rid,)) if not is_eb(v)]
+        except Exception:
+            continue
+        try:
+            b = [vlr_flat(v) for v in res_vl.get_by_id(uid, (rid,)) if not is_eb(v)]
+        except Exception as ex:
+            b = type(ex).__name__
+        if a != b:
+            bad.append((f"{what} lookup by id", f"{ctxt}: .get_by_id({uid!r}, ({rid},)) gives {b if isinstance(b, str) else len(b)} records, on the source {len(a)}"))
+            break
     return bad
 
 
@@ -562,11 +1011,22 @@ def oracle(spec, las, before, outcome, res, ser_before=None):
     # the record: coordinates, common dimensions, dimensions the source lacks, extra dimensions
     bad += compare_records(las, r, src, t)
     ks = lasio.format_key(las.point_format)[1]
+    # the result is a LasData like any other: converted back to the source format it gives what C12 promises of it
+    if not bad and src != t:
+        back, out_b = call_convert(r, {"tgt": src, "ver": None})
+        used("use:converted back")
+        if out_b != "ok":
+            bad.append((tag("result not convertible", wc), f"convert {src}->{t} succeeded; converting its result back to format {src}: {out_b}"))
+        else:
+            bad += [(k + " (result converted back)", w) for k, w in compare_records(r, back, t, src, routes=(spec["seed"] % 4,))][:2]
+            bad += [(k + " (result converted back)", w) for k, w in compare_vlr_lists(
+                "vlrs", [v for v in las.header.vlrs if not is_eb(v)], [v for v in back.header.vlrs if not is_eb(v)], las.header.vlrs, back.header.vlrs,
+                f"convert {src}->{t}->{src}")][:1]
     # VLRs
-    us = [vlr_flat(v) for v in las.header.vlrs if not is_eb(v)]
-    ur = [vlr_flat(v) for v in r.header.vlrs if not is_eb(v)]
-    if us != ur:
-        bad.append(("vlrs", f"{len(ur)} user VLRs after convert, {len(us)} in the source (or contents / order differ)"))
+    bad += compare_vlr_lists("vlrs", [v for v in las.header.vlrs if not is_eb(v)], [v for v in r.header.vlrs if not is_eb(v)], las.header.vlrs, r.header.vlrs,
+                             f"convert {src}->{t} version {ver}")
+    if r.vlrs is not r.header.vlrs:
+        bad.append(("vlrs", "las.vlrs is not las.header.vlrs on the result"))
     ebs = [v for v in r.header.vlrs if is_eb(v)]
     if len(ebs) != (1 if ks else 0):
         bad.append(("extra bytes vlr", f"{len(ebs)} ExtraBytesVlr for {len(ks)} extra dimensions"))
@@ -586,9 +1046,22 @@ def oracle(spec, las, before, outcome, res, ser_before=None):
         es = None if las.header.evlrs is None else [vlr_flat(v) for v in las.header.evlrs]
         er = None if r.header.evlrs is None else [vlr_flat(v) for v in r.header.evlrs]
         if es != er and not (not es and not er):
-            bad.append(("evlrs", f"{None if er is None else len(er)} EVLRs after convert to {rv}, source has {None if es is None else len(es)}"))
+            bad += compare_vlr_lists("evlrs", list(las.header.evlrs or []), list(r.header.evlrs or []), las.header.evlrs or [], r.header.evlrs or [],
+                                     f"convert {src}->{t} to version {rv}") or [("evlrs", f"{er} after convert to {rv}, source has {es}")]
+        elif es and r.evlrs is not r.header.evlrs:
+            bad.append(("evlrs", "las.evlrs is not las.header.evlrs on the result"))
     # shared state: edits of the result must not show in the source, nor in what a second call returns
     snap_r = snapshot(r)
+    # the result is used: every dimension assigned through the public routes, next to the same assignments on a twin of the source
+    if not bad:
+        try:
+            twin = build_source(spec)
+            if snapshot(twin) != before:
+                PROBLEMS["twin of the source differs"] = PROBLEMS.get("twin of the source differs", 0) + 1
+            else:
+                bad += use_assign(twin, r, src, t, salt=spec["seed"] % 12)
+        except Exception as ex:
+            bad.append((tag("result unusable", wc), f"convert {src}->{t}: assigning the dimensions of the result raised {type(ex).__name__}: {str(ex)[:120]}"))
     try:
         mutate(r)
     except Exception as ex:  # the result must be an ordinary, editable LasData
@@ -653,7 +1126,7 @@ def run_case(spec):
     res, outcome = call_convert(las, spec)
     if outcome == "ok":
         try:
-            impl = "ok " + " ".join(enc_las(res)) + " " + ("T" if snapshot(las) == before else "F")
+            impl = "ok " + " ".join(enc_las(res)) + " " + ("T" if snapshot(las) == before else "F") + " " + enc_resolution(res)
         except Exception as ex:
             impl = f"ok unreadable-result {type(ex).__name__}: {ex}"
     else:
@@ -680,6 +1153,8 @@ def all_cases(ctx):
             try:
                 c = run_case(spec)
             except Exception as ex:    # the case could not be evaluated at all (not a verdict about the property)
+                if __import__("os").environ.get("C12_DEBUG"):
+                    __import__("traceback").print_exc()
                 k = f"case not evaluated: {type(ex).__name__}: {str(ex)[:80]}"
                 PROBLEMS[k] = PROBLEMS.get(k, 0) + 1
                 continue
@@ -692,6 +1167,8 @@ def all_cases(ctx):
             if narrowing:
                 ctx.count("mode:" + spec["mode"])
             ctx.count("extra-dims:" + str(spec["nextra"]))
+            for kind, place in spec.get("kvlrs") or []:
+                ctx.count(f"known-record:{kind} as {place} ({'file' if spec.get('via_file') else spec.get('kparse')})")
             ctx.case((spec["src"], spec["tgt"], spec["ver"], spec["sver"], spec["mode"], c["digest"]), nontrivial=c["nontrivial"],
                      sample={"source_format": spec["src"], "target": spec["tgt"], "version": spec["ver"], "points": c["n"], "outcome": c["outcome"]})
         _CASES = out
@@ -728,7 +1205,7 @@ def correspond(ctx):
                 what = f"outcome {mo.split()[1] if mo.startswith('err') else 'ok'} vs {c['impl'].split()[1] if c['impl'].startswith('err') else 'ok'}"
             else:
                 a, b = mo.split(" "), c["impl"].split(" ")
-                parts = ["version", "format", "extra dims", "points", "vlrs", "evlrs", "source unchanged"]
+                parts = ["version", "format", "extra dims", "points", "vlrs", "evlrs", "source unchanged", "name resolution"]
                 what = "result differs in " + ",".join(p for p, x, y in zip(parts, a[1:], b[1:]) if x != y)
             dis.append({"kind": tag(what, c["wc"]), "input": s, "model": mo[:300], "impl": c["impl"][:300]})
     tabs = table_checks()
@@ -875,11 +1352,12 @@ def sweep_one(inp):
             bad.append((tag("conversion refused", cls), f"format {src} + extra dimension {name!r} ({typ}) = {vals} -> {t}: {outcome}; "
                         f"format {t} has no field of that name and every standard value fits"))
         else:
-            first = compare_records(las, res, src, t)
-            bad += first
+            rt = ((t + len(name)) % 4,)      # one access route per (name, target), all four over the sweep
+            first = compare_records(las, res, src, t, routes=rt, fmt=False)
+            bad += use_format(las, res, src, t) + first
             res.points.array.view(np.uint8)[...] = 0xFF        # the caller edits the result, then asks again
             res2, out2 = call_convert(las, {"src": src, "tgt": t, "ver": None})
-            second = compare_records(las, res2, src, t) if out2 == "ok" else [("refused", out2)]
+            second = compare_records(las, res2, src, t, routes=rt, fmt=False) if out2 == "ok" else [("refused", out2)]
             if [k for k, _ in second] != [k for k, _ in first]:
                 bad.append(("second call differs", f"format {src} + extra dimension {name!r} -> {t}: second conversion {second[:2]}, first {first[:2]}"))
         if las.points.array.tobytes() != raw:
@@ -1036,6 +1514,8 @@ def search(ctx, seeds):
         note = f"{k} ({v} cases)"
         if note not in ctx.notes:
             ctx.notes.append(note)
+    for k, v in USED.items():
+        ctx.count(k, v)
     # kinds that do not involve a name clash first (those are listed as one finding against /repo)
     failing.sort(key=lambda f: "[name clash" in f["kind"] and "target-field" not in f["kind"])
     return failing[:10]
